@@ -20,7 +20,9 @@ void harness_get_ws_frame(void)
 	t = get_ws_frame(buf, n, &payload, &out_len);
 	if (rr == WSR_MORE) {
 		/* an oversized 64-bit length may be rejected before the frame is complete */
-		if (!(t == ERROR_FRAME && n >= 10 && (orig[1] & 0x7f) == 127))
+		uint64_t l64 = 0; int q;
+		for (q = 0; q < 8; q++) l64 = (l64 << 8) | orig[(2 + q) % VP_N];
+		if (!(t == ERROR_FRAME && n >= 10 && (orig[1] & 0x7f) == 127 && l64 > 10485760u))
 			VP_ASSERT(t == INCOMPLETE_DATA, "C31: frame decoder did not wait for a frame that is not completely buffered");
 		if (t == INCOMPLETE_DATA) {
 			i = (size_t)vp_range(0, VP_N - 1);
